@@ -12,6 +12,13 @@ H_C04 = 200.0        # rest horizon C04 (virtual s): > 60 s incoming-ball timeou
 H_C05 = 300.0        # progress horizon C05
 SETTLE_CAP = 4000.0  # virtual seconds after which "the world never came to rest" (no verdict)
 
+LIVELOCK_ITERATIONS = 100000   # loop iterations at one virtual instant (normal bursts are a few hundred)
+
+
+class Livelock(BaseException):
+    """Raised by the loop hook to abort a case whose virtual clock no longer advances."""
+
+
 C04_CLAUSES = ("rest_device_count", "rest_playfield_count", "rest_conservation", "range", "no_room")
 C05_CLAUSES = ("idle_or_broken", "request_served", "delivery", "retry_or_report")
 
@@ -68,6 +75,10 @@ def gen_topology(rng, level):
         if rng.random() < 0.3:
             lock = _dev("bd_lock", rng.randint(1, 2), "pulse", "playfield", "", counter="entrance",
                         settle_time_ms=rng.choice([200, 500, 2000]), **t)
+        elif rng.random() < 0.2:
+            # hold-coil lock: balls are held while the coil is enabled, one is released per disable
+            lock = _dev("bd_lock", rng.randint(1, 2), "hold", "playfield", "", release_time_ms=rng.choice([300, 1000]),
+                        **t)
         else:
             lock = _dev("bd_lock", rng.randint(1, 3), "pulse", "playfield", "", **t)
         devices.append(lock)
@@ -86,7 +97,7 @@ def gen_topology(rng, level):
         logic["ball_hold"] = {"device": "bd_lock", "balls_to_hold": rng.randint(1, lock["slots"])}
     topo = {"balls": balls, "source": "bd_trough" if kind == "direct" else "bd_plunger",
             "balls_per_game": rng.randint(1, 3), "devices": devices, "logic": logic,
-            "kind": kind + ("+drain" if has_drain else "") + ("+lock" + lock["counter"][0] if lock else "") +
+            "kind": kind + ("+drain" if has_drain else "") + ("+lock" + (lock["counter"][0] if lock["ejector"] != "hold" else "h") if lock else "") +
             ("+en" if trough_ej == "enable" else "") + ("+vuk" if vuk else "")}
     return topo
 
@@ -105,7 +116,7 @@ def gen_ops(rng, topo, n_ops, rests):
     if "bd_vuk" in names:
         kinds += ["vuk"] * 3
     if "bd_plunger" in names:
-        kinds += ["ev:ev_req_plunger"]
+        kinds += ["ev:ev_req_plunger", "lane"]     # lane: a loose ball rolls back into the plunger lane
     if "multiball" in logic:
         kinds += ["ev:ev_mb_start", "ev:ev_mb_add", "ev:ev_mb_add", "ev:ev_mb_stop"]
     if "ball_save" in logic:
@@ -116,13 +127,16 @@ def gen_ops(rng, topo, n_ops, rests):
     for i in range(n_ops):
         k = rng.choice(kinds)
         dt = rng.choice(DTS)
-        if k in ("drain", "lock", "vuk", "pf", "wait"):
+        if k in ("drain", "lock", "vuk", "lane", "pf", "wait"):
             ops.append([k, dt])
         elif k == "start":
             ops.append(["wait", dt])
             ops.append(["start"])
         else:
             ops.append(["ev", k[3:], dt])
+            if has_lock and k[3:] in ("ev_release_one", "ev_release_all", "ev_mb_start") and rng.random() < 0.5:
+                # a shot into the lock while it is (probably) ejecting: entrance during eject
+                ops.append(["lock", rng.choice([0.03, 0.2, 0.6, 1.5])])
         if i + 2 in rest_at:
             ops.append(["rest"])
     return ops
@@ -148,8 +162,7 @@ def gen_phys(rng, topo, fault_level):
 
 def shape_of(case):
     topo = case["topo"]
-    ops = "".join({"start": "S", "wait": "w", "drain": "D", "lock": "L", "vuk": "V", "pf": "p", "ev": "e", "rest": "R",
-                   "req": "q"}.get(o[0], "?") for o in case["ops"])
+    ops = "".join({"start": "S", "wait": "w", "drain": "D", "lock": "L", "vuk": "V", "lane": "l", "pf": "p", "ev": "e", "rest": "R"}.get(o[0], "?") for o in case["ops"])
     faults = ",".join("%s:%s" % (k[3:5], "".join(x[0] if x != "back_late" else "B" for x in v))
                       for k, v in sorted(case["phys"].get("faults", {}).items()))
     return "%s|b%d|%s|%s" % (topo.get("kind", "?"), topo["balls"], ops[:40], faults[:30])
@@ -183,6 +196,9 @@ class Monitors:
         self.coil_times = {n: [] for n in self.devices}
         self._depth = 0
         self._replacement = 0
+        self._last_t = None
+        self._same_t = 0
+        self.livelocked = False
         self.mech_idle_ejects = {}
         self.idle_skips = {}
         Monitors.current = self
@@ -343,6 +359,21 @@ class Monitors:
 
     def check_range(self):
         self.obs["iterations"] += 1
+        now = self.vm.loop.time()
+        if now == self._last_t:
+            self._same_t += 1
+            if self._same_t == LIVELOCK_ITERATIONS:
+                # deterministic, in virtual time: the loop keeps running callbacks but the clock never advances
+                self.violation("C05", "idle_or_broken", "zero_time_livelock",
+                               {"iterations_without_time_advancing": self._same_t,
+                                "states": {n: d._state for n, d in self.devices.items()},
+                                "physical": self.world.physical_counts(),
+                                "world_trace": list(self.world.trace)[-30:]})
+                self.livelocked = True
+                raise Livelock()
+        else:
+            self._last_t = now
+            self._same_t = 0
         busy = 0
         for name, d in self.devices.items():
             b = d.balls
@@ -360,9 +391,13 @@ class Monitors:
         if pf < 0:
             self.obs["pf_negative_transients"] += 1
             # every non-idle device may have one ball in flight that a capture can pre-empt (see ASSUMPTIONS)
-            if pf < -busy:
+            # ... and so may a ball the player plunged which MPF cannot have noticed yet (exit count delay)
+            now = self.vm.loop.time()
+            unnoticed = sum(1 for (t, dev, oc, by) in self.world.launch_log[-8:]
+                            if by == "player" and oc != "weak" and now - t <= self.world.devs[dev].exit_delay + 1.2)
+            if pf < -(busy + unnoticed):
                 self.violation("C04", "range", "playfield_count_negative",
-                               {"playfield_balls": pf, "devices_not_idle": busy,
+                               {"playfield_balls": pf, "devices_not_idle": busy, "unnoticed_plunges": unnoticed,
                                 "states": {n: d._state for n, d in self.devices.items()}})
         nr = self.world.room_checks
         if nr != self.clauses["no_room"]:
@@ -439,6 +474,10 @@ def run_world_case(case, horizon):
                     vm.advance(float(op[1]))
                     if "bd_lock" in world.devs:
                         world.move_loose_ball("bd_lock", kind="lock_shots")
+                elif k == "lane":
+                    vm.advance(float(op[1]))
+                    if "bd_plunger" in world.devs:
+                        world.move_loose_ball("bd_plunger", kind="lane_returns")
                 elif k == "vuk":
                     vm.advance(float(op[1]))
                     if "bd_vuk" in world.devs:
@@ -449,11 +488,6 @@ def run_world_case(case, horizon):
                 elif k == "ev":
                     vm.advance(float(op[2]))
                     vm.machine.events.post(op[1])
-                elif k == "req":
-                    vm.advance(float(op[2]))
-                    d = vm.machine.ball_devices.get(op[1]) if hasattr(vm.machine.ball_devices, "get") else None
-                    if d is not None:
-                        d.request_ball(1)
                 elif k == "rest":
                     rested = settle(vm, world, horizon)
                     evaluate_rest(mon, world, rested, horizon, trace)
@@ -461,6 +495,18 @@ def run_world_case(case, horizon):
                         stop = True
         except MpfCrash as e:
             crashed = repr(e)
+            if "CaseTimeout" in crashed:
+                # wall clock is never a verdict: hand the harness its own timeout exception back
+                import sys
+                for modname in ("__main__", "vlib.worker"):
+                    cls = getattr(sys.modules.get(modname), "CaseTimeout", None)
+                    if cls is not None:
+                        world.close()
+                        Monitors.current = None
+                        raise cls()
+                raise
+            if "Livelock" in crashed:
+                crashed = None
         if crashed:
             txt = crashed
             mon.violation("C04", "range", _crash_sig(txt), {"exception": txt[:600], "beliefs": _safe(mon.beliefs),
@@ -470,7 +516,7 @@ def run_world_case(case, horizon):
         obs = dict(mon.obs)
         obs.update({"w_" + k: v for k, v in world.stats.items()})
         return {"violations": mon.viol, "clauses": mon.clauses, "obs": obs, "trace": trace[-6:],
-                "world_trace": world.trace[-60:]}
+                "world_trace": list(world.trace)[-60:]}
 
 
 def _safe(fn):
@@ -488,6 +534,13 @@ def _skip_race_config(topo):
         if t and t["ejector"] in ("mech", "mech_coil") and t["eject_timeout_ms"] == d["missing_timeout_ms"]:
             return True
     return False
+
+
+def _confirmed_by_coincidence(mon, world, t, dev):
+    """MPF posted eject_success for `dev` after the launch at t and some ball did arrive at its target after t."""
+    tgt = world.devs[dev].target
+    return any(at > t and adst == tgt for at, adst in world.arrival_log) and \
+        any(et > t and kind == "success" for et, kind in mon.dev_events[dev])
 
 
 def evaluate_rest(mon, world, rested, horizon, trace):
@@ -511,7 +564,7 @@ def evaluate_rest(mon, world, rested, horizon, trace):
             if bel[n]["balls"] != phys[n]:
                 mon.violation("C04", "rest_device_count", "device_count_differs_at_rest",
                               {"device": n, "mpf_balls": bel[n]["balls"], "physical": phys[n], "snapshot": snap,
-                               "world_trace": world.trace[-40:]})
+                               "world_trace": list(world.trace)[-40:]})
         mismatch = any(bel[n]["balls"] != phys[n] for n in mon.devices)
         mon.clauses["rest_playfield_count"] += 1
         if bel["playfield"]["balls"] != phys["playfield"]:
@@ -521,7 +574,7 @@ def evaluate_rest(mon, world, rested, horizon, trace):
                 sig = "playfield_overcount_skip_confirm_and_missing_timeout_same_instant"
             mon.violation("C04", "rest_playfield_count", sig,
                           {"mpf_playfield_balls": bel["playfield"]["balls"], "physical_loose": phys["playfield"],
-                           "snapshot": snap, "world_trace": world.trace[-40:]})
+                           "snapshot": snap, "world_trace": list(world.trace)[-40:]})
         mon.clauses["rest_conservation"] += 1
         total = sum(bel[n]["balls"] for n in mon.devices) + bel["playfield"]["balls"]
         if bel["num_balls_known"] != world.total_balls or (total != bel["num_balls_known"] and not mismatch):
@@ -572,7 +625,9 @@ def evaluate_rest(mon, world, rested, horizon, trace):
                        any(e.target is d for e in list(devs[s].outgoing_balls_handler._eject_queue._queue))]
             if not feeding:
                 sig += "_no_source_sends_one"
-                if mon.mech_idle_ejects.get(n) or mon.idle_skips.get(n):
+                if mon.missing_events:
+                    sig += "_after_lost_ball_handling"      # cancel_path / restore-path bookkeeping
+                elif mon.mech_idle_ejects.get(n) or mon.idle_skips.get(n):
                     sig += "_stale_available_balls"
         elif st == "waiting_for_target_ready" and tname in world.devs and \
                 world.devs[tname].count() < world.devs[tname].capacity:
@@ -581,7 +636,7 @@ def evaluate_rest(mon, world, rested, horizon, trace):
                       {"device": n, "state": st, "target": tname, "snapshot": snap,
                        "mechanical_idle_ejects": mon.mech_idle_ejects.get(n, 0),
                        "idle_skips": mon.idle_skips.get(n, 0),
-                       "world_trace": world.trace[-40:]})
+                       "world_trace": list(world.trace)[-40:]})
 
     # queued requests that could still be served
     for n, d in devs.items():
@@ -610,6 +665,15 @@ def evaluate_rest(mon, world, rested, horizon, trace):
         # a ball that rolls back into its source after the eject timeout may come back after MPF (correctly, on
         # the evidence it has) concluded success or loss; then it is indistinguishable from a new ball
         back_late = sum(1 for (_t, _d, oc, _by) in world.launch_log if oc == "back_late")
+        # a stray ball towards a mechanical plunger is (reasonably) taken for a ball that skipped the plunger
+        back_late += sum(1 for (_t, dv, oc, _by) in world.launch_log if oc == "stray" and
+                         world.devs[dv].target in world.devs and
+                         world.devs[world.devs[dv].target].ejector in ("mech", "mech_coil"))
+        # a failed eject that MPF confirmed because another ball reached the target (or closed the playfield switch)
+        # in the meantime: the evidence MPF has says "delivered"; the ball itself is back in the source
+        for (t, dv, oc, _by) in world.launch_log:
+            if oc in ("weak", "back_early") and _confirmed_by_coincidence(mon, world, t, dv):
+                back_late += 1
         for tname, r in mon.requests.items():
             mon.clauses["delivery"] += 1
             dl = world.deliveries.get(tname, 0)
@@ -618,7 +682,7 @@ def evaluate_rest(mon, world, rested, horizon, trace):
                 mon.violation("C05", "delivery", "requested_ball_never_delivered",
                               {"target": tname, "requests": r, "delivered": dl, "still_queued": q,
                                "blocked_ejects": blocked, "late_fall_backs": back_late, "reported_missing": mon.missing_events, "reported_failed": mon.failed_final,
-                               "snapshot": snap, "world_trace": world.trace[-40:]})
+                               "snapshot": snap, "world_trace": list(world.trace)[-40:]})
 
     # every physical failed eject is retried or reported
     now = mon.vm.now()
@@ -641,11 +705,9 @@ def evaluate_rest(mon, world, rested, horizon, trace):
             reported = True
         # MPF confirmed the eject because some ball did arrive at the target in the meantime (coincidence with another
         # ball): on the evidence it has that is a success, and the target did get a ball
-        tgt = world.devs[dev].target
-        if any(at > t and adst == tgt for at, adst in world.arrival_log) and \
-                any(et > t and kind == "success" for et, kind in mon.dev_events[dev]):
+        if _confirmed_by_coincidence(mon, world, t, dev):
             reported = True
         if not retried and not reported:
             mon.violation("C05", "retry_or_report", "failed_eject_neither_retried_nor_reported",
                           {"device": dev, "physical_outcome": outcome, "launched_at": round(t, 3),
-                           "snapshot": snap, "world_trace": world.trace[-40:]})
+                           "snapshot": snap, "world_trace": list(world.trace)[-40:]})
